@@ -638,7 +638,7 @@ reg(HistProp('C20', cfg_c20, probes_c20, quick=400, thorough=12000,
 reg(HistProp('C17', cfg_c17, probes_c17, quick=400, thorough=12000,
              rule='every reopen redraws NewSegmentsVersion/KeepRewriteVersion/EagerVersionMigrate and may Migrate to V1 or V2; '
                   'scan/next/stat after each op, file versions and sizes at every close; non-trivial = >= 2 reopens with deletes',
-             nontrivial=has_multi_layout))
+             nontrivial=has_multi_layout, extra=codec.c17_extra))
 reg(HistProp('C11', cfg_c11, probes_c11, quick=300, thorough=9000,
              rule='at every close: Check of every segment + directory listing; 70% of reopens remove all/some index files; 30% '
                   'read-only reopens; stat/scan/get/key/time queries after each op; non-trivial as C01',
